@@ -487,6 +487,24 @@ func (g *gen) rewritePkgRefs(info *types.Info, node ast.Node) ast.Node {
 		if scope := info.Scopes[c.Node()]; scope != nil {
 			scopeStack = append(scopeStack, scope)
 		}
+		if ts, ok := c.Node().(*ast.TypeSwitchStmt); ok {
+			// The symbolic variable of "switch x := y.(type)" has no object of
+			// its own: each clause declares an implicit one at x's position.
+			// Pick one new name for the identifier and all of those objects.
+			if assign, ok := ts.Assign.(*ast.AssignStmt); ok && len(assign.Lhs) == 1 {
+				if id, ok := assign.Lhs[0].(*ast.Ident); ok && (g.nameInFileScope(id.Name) || inNewNames(id.Name)) {
+					newName := disambiguate(id.Name, func(n string) bool {
+						return g.nameInFileScope(n) || inNewNames(n)
+					})
+					for _, obj := range info.Implicits {
+						if obj.Pos() == id.Pos() {
+							newNames[obj] = newName
+						}
+					}
+					assign.Lhs[0] = ast.NewIdent(newName)
+				}
+			}
+		}
 		id, ok := c.Node().(*ast.Ident)
 		if !ok {
 			return true
